@@ -9,6 +9,10 @@ def check(ctx):
     nret = ffi.check_errors(ctx, rep)
     rep.floor("return-value definitions classified", nret, 150)
     nk = ffi.check_kind_delegation(ctx, rep)
+    nfp = ffi.check_failure_paths(ctx, rep)
+    rep.floor("fallible lookups / index guards in the C API", nfp, 20)
+    nfl = ffi.check_named_flags(ctx, rep)
+    rep.floor("utc-flag selected accessors", nfl, 2)
     rep.floor("kind-specific C functions (is_/get_/make_)", nk, 60)
     n_sent = sum(1 for o in rep.obligations if o.rule == "R-ERR" and "sentinel-return" in o.key)
     n_arm = sum(1 for o in rep.obligations if o.rule == "R-ERR" and "null-arm" in o.key)
